@@ -232,6 +232,36 @@ fn bounded_work(map: &Beatmap) -> bool {
     true
 }
 
+// heartbeat: the driver's watchdog budget is per CALL, not per map (one map is several hundred calls); while a map is being
+// processed, the current index is written again whenever a call finishes and the last write is more than a second old
+static HEART: std::sync::Mutex<Option<(std::fs::File, std::time::Instant, usize)>> = std::sync::Mutex::new(None);
+fn beat_start(file: std::fs::File) {
+    *HEART.lock().unwrap() = Some((file, std::time::Instant::now(), 0));
+}
+fn beat_map(i: usize) {
+    if let Some((f, at, idx)) = HEART.lock().unwrap().as_mut() {
+        *idx = i;
+        *at = std::time::Instant::now();
+        let _ = writeln!(f, "{i}");
+        let _ = f.flush();
+    }
+}
+fn beat() {
+    if let Some((f, at, idx)) = HEART.lock().unwrap().as_mut() {
+        if at.elapsed().as_millis() >= 1000 {
+            *at = std::time::Instant::now();
+            let _ = writeln!(f, "{idx}");
+            let _ = f.flush();
+        }
+    }
+}
+fn beat_done() {
+    if let Some((f, _, _)) = HEART.lock().unwrap().as_mut() {
+        let _ = writeln!(f, "done");
+        let _ = f.flush();
+    }
+}
+
 #[derive(Default)]
 struct Obs {
     skipped: u64,
@@ -331,6 +361,7 @@ fn run_map(sc: &Scenario, idx: usize, c09: bool, obs: &mut Obs) {
         obs.problems.push(json!({"what": what, "detail": detail, "scenario_index": idx, "scenario": sc, "osu_text": text}));
     };
     obs.calls += 1;
+    beat();
     let map = match guarded(|| Beatmap::from_bytes(text.as_bytes())) {
         Ok(Ok(m)) => m,
         Ok(Err(e)) => {
@@ -379,6 +410,7 @@ fn run_map(sc: &Scenario, idx: usize, c09: bool, obs: &mut Obs) {
     }
     for (ti, (t, conv_mods)) in conversions.iter().enumerate() {
         obs.calls += 1;
+    beat();
         let conv = match guarded(|| map.convert_ref(*t, conv_mods).map(|c| c.into_owned())) {
             Ok(Ok(c)) => c,
             Ok(Err(_)) => continue,
@@ -508,6 +540,7 @@ fn run_map(sc: &Scenario, idx: usize, c09: bool, obs: &mut Obs) {
                             }
                         }
                         obs.calls += 1;
+    beat();
                         let gp = guarded(|| {
                             let mut g = GradualPerformance::new(d.clone(), &conv);
                             let a = g.next(ScoreState::new());
@@ -537,21 +570,23 @@ pub fn main(args: &[String]) -> i32 {
     use std::io::BufRead;
     let file = std::io::BufReader::new(std::fs::File::open(&args[0]).expect("scenario file"));
     let mut obs = Obs::default();
-    let mut progress = std::fs::OpenOptions::new().create(true).append(true).open(&args[2]).expect("progress file");
+    beat_start(std::fs::OpenOptions::new().create(true).append(true).open(&args[2]).expect("progress file"));
+    // slices are interleaved (index % modulus == remainder): expensive maps sit next to each other in the enumeration order
+    let modulus: usize = args.iter().position(|a| a == "--mod").map(|i| args[i + 1].parse().unwrap()).unwrap_or(1);
+    let rem: usize = args.iter().position(|a| a == "--rem").map(|i| args[i + 1].parse().unwrap()).unwrap_or(0);
     let mut total = 0usize;
     for (i, line) in file.lines().enumerate() {
         total = i + 1;
-        if i < from || i >= to || obs.problems.len() > 4000 {
+        if i < from || i >= to || i % modulus != rem || obs.problems.len() > 4000 {
             continue;
         }
         let line = line.expect("readable line");
         let sc: Scenario = serde_json::from_str(&line).expect("scenario shape");
         // single-threaded on purpose: the progress file names the map being processed
-        let _ = writeln!(progress, "{i}");
-        let _ = progress.flush();
+        beat_map(i);
         run_map(&sc, i, c09, &mut obs);
     }
-    let _ = writeln!(progress, "done");
+    beat_done();
     let out = json!({"scenarios": total, "from": from, "calls": obs.calls, "skipped": obs.skipped, "problems": obs.problems.len(),
         "records": obs.problems.iter().take(200).collect::<Vec<_>>()});
     std::fs::write(&args[1], serde_json::to_string(&out).unwrap()).unwrap();
@@ -624,6 +659,7 @@ fn run_text(text: &str, idx: usize, rng: &mut StdRng, obs: &mut Obs) {
         obs.problems.push(json!({"what": what, "detail": detail, "scenario_index": idx, "scenario": {"family": "random"}, "osu_text": text}));
     };
     obs.calls += 1;
+    beat();
     let map = match guarded(|| Beatmap::from_bytes(text.as_bytes())) {
         Ok(Ok(m)) => m,
         Ok(Err(_)) => return,
@@ -645,6 +681,7 @@ fn run_text(text: &str, idx: usize, rng: &mut StdRng, obs: &mut Obs) {
             let cfg = if k == 0 { crate::settings::Cfg::default() } else { crate::settings::Cfg::default().with_acronyms(&format!("{k}K")) };
             let mods = cfg.game_mods();
             obs.calls += 1;
+    beat();
             let conv = match guarded(|| map.convert_ref(t, &mods).map(|c| c.into_owned())) {
                 Ok(Ok(c)) => c,
                 Ok(Err(_)) => continue,
@@ -702,6 +739,7 @@ fn run_text(text: &str, idx: usize, rng: &mut StdRng, obs: &mut Obs) {
             }
             for (sname, st) in states_for(&attrs, true) {
                 obs.calls += 1;
+    beat();
                 if let Err(p) = guarded(|| Performance::new(attrs.clone()).difficulty(d.clone()).lazer(idx % 2 == 0).state(st.clone()).calculate()) {
                     report("panic:performance", format!("{label} state {sname}: {p}"));
                 }
@@ -732,10 +770,14 @@ pub fn random_main(args: &[String]) -> i32 {
     let seed: u64 = std::env::var("VERIF_SEED").ok().and_then(|s| s.parse().ok()).unwrap_or(0);
     let fixtures: Vec<String> = ["2785319", "1028484", "2118524", "1638954"].iter().filter_map(|id| std::fs::read_to_string(format!("/repo/resources/{id}.osu")).ok()).collect();
     let mut obs = Obs::default();
-    let mut progress = std::fs::OpenOptions::new().create(true).append(true).open(&args[2]).expect("progress file");
+    beat_start(std::fs::OpenOptions::new().create(true).append(true).open(&args[2]).expect("progress file"));
+    let modulus: usize = args.iter().position(|a| a == "--mod").map(|i| args[i + 1].parse().unwrap()).unwrap_or(1);
+    let rem: usize = args.iter().position(|a| a == "--rem").map(|i| args[i + 1].parse().unwrap()).unwrap_or(0);
     for i in from..to.min(n) {
-        let _ = writeln!(progress, "{i}");
-        let _ = progress.flush();
+        if i % modulus != rem {
+            continue;
+        }
+        beat_map(i);
         let mut rng = StdRng::seed_from_u64(seed.wrapping_mul(1_000_003).wrapping_add(i as u64));
         let text = if i % 5 == 4 && !fixtures.is_empty() {
             // a mutated window of a fixture: header + up to 150 object lines, a few numeric fields replaced
@@ -763,7 +805,7 @@ pub fn random_main(args: &[String]) -> i32 {
             break;
         }
     }
-    let _ = writeln!(progress, "done");
+    beat_done();
     let out = json!({"scenarios": n, "from": from, "calls": obs.calls, "skipped": obs.skipped, "problems": obs.problems.len(),
         "records": obs.problems.iter().take(200).collect::<Vec<_>>()});
     std::fs::write(&args[1], serde_json::to_string(&out).unwrap()).unwrap();
